@@ -31,7 +31,7 @@ def run(ctx):
     cferr = gc.chanfile_error_part(ctx, rng)
     multi = gc.multi_part(ctx, ["C07."])
     jobs += gc.jobs_for([p for p in progs if len(p["threads"]) == 1], 6 if ctx.quick else 40, 2, ctx.seed + 1, [{"post_yields": True, "worker_backend": "main_thread_only"}])
-    res = gc.run_and_judge(ctx, jobs, ["C07.", "C14.false-deadlock"], lambda evs: any(e["ev"] == "fin" and e["op"] == "6" for e in evs), (lambda r, vd: {"C07.remote-error-swallowed-after-last-message": "error-after-last-message", "C07.callback-error-during-setcallback-drain-not-reported": "callback-raises-during-setcallback-drain"}.get(vd)), searches=searches)
+    res = gc.run_and_judge(ctx, jobs, ["C07.", "C14.false-deadlock", "C10.endmarker-missing"], lambda evs: any(e["ev"] == "fin" and e["op"] == "6" for e in evs), (lambda r, vd: {"C07.remote-error-swallowed-after-last-message": "error-after-last-message", "C07.callback-error-during-setcallback-drain-not-reported": "callback-raises-during-setcallback-drain"}.get(vd)), searches=searches)
     gwrun.close_pool()
     ctx.coverage.update({
         "states": mc["states"], "transitions": mc["transitions"],
